@@ -17,7 +17,7 @@ tools/extract.py regenerates):
   (`special_bytes_count`: that count is the number of special CHARACTERS, because a byte of a multi-byte sequence read
   as a `char` is never special - the claim of the comment in the source);
 * `C17_to_str_translated_eq`: `genToStr e buf prec = (toStr Generated.isSpecial e prec).map (buf ++ ·)` for every
-  expression, buffer and precedence - in particular the same panic set (`none`) - under `hiOK e`: no
+  expression, buffer and precedence - in particular the same panic set (`none`) - under `hiPrintOK e`: no
   `Repeat { hi: some usize::MAX }`, a value of the model's `Option Nat` that the Rust `usize` cannot tell from "unbounded"
   (an `example` shows the two sides differ there).
 
@@ -144,15 +144,15 @@ theorem C17_escape_translated_eq (text : List Char) : genEscape text = escape Ge
 mutual
 /-- the representation side condition: `Repeat::hi` is a `usize` in Rust, `usize::MAX` meaning "unbounded"; the model's
     `some UNSET` has no Rust counterpart distinct from `none` -/
-def hiOK : Expr → Bool
-  | .concat es => hiOKAll es
-  | .alt es => hiOKAll es
-  | .group _ e => hiOK e
-  | .repeat e _ hi _ => (hi != some UNSET) && hiOK e
+def hiPrintOK : Expr → Bool
+  | .concat es => hiPrintOKAll es
+  | .alt es => hiPrintOKAll es
+  | .group _ e => hiPrintOK e
+  | .repeat e _ hi _ => (hi != some UNSET) && hiPrintOK e
   | _ => true
-def hiOKAll : List Expr → Bool
+def hiPrintOKAll : List Expr → Bool
   | [] => true
-  | e :: es => hiOK e && hiOKAll es
+  | e :: es => hiPrintOK e && hiPrintOKAll es
 end
 
 local notation "sp" => Generated.isSpecial
@@ -160,7 +160,7 @@ local notation "sp" => Generated.isSpecial
 theorem unset_ne : UNSET ≠ 1 ∧ UNSET ≠ 0 := by decide
 
 mutual
-theorem genToStr_eq : ∀ (e : Expr) (buf : List Char) (prec : Nat), hiOK e = true →
+theorem genToStr_eq : ∀ (e : Expr) (buf : List Char) (prec : Nat), hiPrintOK e = true →
     genToStr e buf prec = (toStr sp e prec).map (buf ++ ·)
   | .empty, buf, prec, _ => by simp [genToStr, toStr]
   | .any nl, buf, prec, _ => by cases nl <;> simp [genToStr, toStr]
@@ -169,7 +169,7 @@ theorem genToStr_eq : ∀ (e : Expr) (buf : List Char) (prec : Nat), hiOK e = tr
   | .assertion a, buf, prec, _ => by
     rcases a with _ | _ | ⟨_ | _⟩ | ⟨_ | _⟩ | _ | _ | _ | _ <;> simp [genToStr, toStr]
   | .concat es, buf, prec, h => by
-    have hes : hiOKAll es = true := by simpa [hiOK] using h
+    have hes : hiPrintOKAll es = true := by simpa [hiPrintOK] using h
     simp only [genToStr, toStr]
     by_cases hp : prec > 1
     · simp only [hp, decide_true, if_true, loopToStr_eq es _ hes]
@@ -177,7 +177,7 @@ theorem genToStr_eq : ∀ (e : Expr) (buf : List Char) (prec : Nat), hiOK e = tr
     · simp only [hp, decide_false, Bool.false_eq_true, if_false, loopToStr_eq es _ hes]
       cases toStrConcat sp es <;> simp
   | .alt es, buf, prec, h => by
-    have hes : hiOKAll es = true := by simpa [hiOK] using h
+    have hes : hiPrintOKAll es = true := by simpa [hiPrintOK] using h
     simp only [genToStr, toStr]
     by_cases hp : prec > 0
     · simp only [hp, decide_true, if_true, loopToStr2_eq es 0 _ hes, beq_self_eq_true]
@@ -185,11 +185,11 @@ theorem genToStr_eq : ∀ (e : Expr) (buf : List Char) (prec : Nat), hiOK e = tr
     · simp only [hp, decide_false, Bool.false_eq_true, if_false, loopToStr2_eq es 0 _ hes, beq_self_eq_true]
       cases toStrAlt sp es true <;> simp
   | .group g e, buf, prec, h => by
-    have he : hiOK e = true := by simpa [hiOK] using h
+    have he : hiPrintOK e = true := by simpa [hiPrintOK] using h
     simp only [genToStr, toStr, genToStr_eq e _ 0 he]
     cases toStr sp e 0 <;> simp
   | .repeat e lo hi greedy, buf, prec, h => by
-    have hh : hi ≠ some UNSET ∧ hiOK e = true := by simpa [hiOK] using h
+    have hh : hi ≠ some UNSET ∧ hiPrintOK e = true := by simpa [hiPrintOK] using h
     obtain ⟨hhi, he⟩ := hh
     simp only [genToStr, toStr, genToStr_eq e _ 3 he]
     cases toStr sp e 3 with
@@ -231,22 +231,22 @@ theorem genToStr_eq : ∀ (e : Expr) (buf : List Char) (prec : Nat), hiOK e = tr
   | .backrefExists g, buf, prec, _ => by simp [genToStr, toStr]
   | .cond c y n, buf, prec, _ => by simp [genToStr, toStr]
   | .subroutine g, buf, prec, _ => by simp [genToStr, toStr]
-theorem loopToStr_eq : ∀ (es : List Expr) (buf : List Char), hiOKAll es = true →
+theorem loopToStr_eq : ∀ (es : List Expr) (buf : List Char), hiPrintOKAll es = true →
     loopToStr es buf = (toStrConcat sp es).map (buf ++ ·)
   | [], buf, _ => by simp [loopToStr, toStrConcat]
   | e :: es, buf, h => by
-    have hh : hiOK e = true ∧ hiOKAll es = true := by simpa [hiOKAll] using h
+    have hh : hiPrintOK e = true ∧ hiPrintOKAll es = true := by simpa [hiPrintOKAll] using h
     simp only [loopToStr, toStrConcat, genToStr_eq e _ 2 hh.1]
     cases toStr sp e 2 with
     | none => simp
     | some a =>
       simp only [Option.map_some, loopToStr_eq es _ hh.2]
       cases toStrConcat sp es <;> simp
-theorem loopToStr2_eq : ∀ (es : List Expr) (i : Nat) (buf : List Char), hiOKAll es = true →
+theorem loopToStr2_eq : ∀ (es : List Expr) (i : Nat) (buf : List Char), hiPrintOKAll es = true →
     loopToStr2 es i buf = (toStrAlt sp es (i == 0)).map (buf ++ ·)
   | [], i, buf, _ => by simp [loopToStr2, toStrAlt]
   | e :: es, i, buf, h => by
-    have hh : hiOK e = true ∧ hiOKAll es = true := by simpa [hiOKAll] using h
+    have hh : hiPrintOK e = true ∧ hiPrintOKAll es = true := by simpa [hiPrintOKAll] using h
     simp only [loopToStr2, toStrAlt, genToStr_eq e _ 1 hh.1]
     cases toStr sp e 1 with
     | none => simp
@@ -261,20 +261,20 @@ end
 
 /-- **`Expr::to_str` as translated is the model's `toStr`** (appended to the buffer; `none` = the panic
     "attempting to format hard expr"), for every expression whose repeat bounds are Rust values -/
-theorem C17_to_str_translated_eq (e : Expr) (buf : List Char) (prec : Nat) (h : hiOK e = true) :
+theorem C17_to_str_translated_eq (e : Expr) (buf : List Char) (prec : Nat) (h : hiPrintOK e = true) :
     genToStr e buf prec = (toStr Generated.isSpecial e prec).map (buf ++ ·) := genToStr_eq e buf prec h
 
 /-- from the empty buffer, as `compile` calls it -/
-theorem C17_to_str_translated_empty (e : Expr) (prec : Nat) (h : hiOK e = true) :
+theorem C17_to_str_translated_empty (e : Expr) (prec : Nat) (h : hiPrintOK e = true) :
     genToStr e [] prec = toStr Generated.isSpecial e prec := by
   rw [genToStr_eq e [] prec h]; cases toStr Generated.isSpecial e prec <;> simp
 
 /-- same panic set -/
-theorem C17_to_str_translated_panics (e : Expr) (buf : List Char) (prec : Nat) (h : hiOK e = true) :
+theorem C17_to_str_translated_panics (e : Expr) (buf : List Char) (prec : Nat) (h : hiPrintOK e = true) :
     genToStr e buf prec = none ↔ toStr Generated.isSpecial e prec = none := by
   rw [genToStr_eq e buf prec h]; cases toStr Generated.isSpecial e prec <;> simp
 
-/-- why `hiOK`: `x{0,usize::MAX}` as a model value `some UNSET` prints with the bound, the Rust side (which sees
+/-- why `hiPrintOK`: `x{0,usize::MAX}` as a model value `some UNSET` prints with the bound, the Rust side (which sees
     `usize::MAX` = unbounded) prints `*` -/
 example : genToStr (.repeat (.any false) 0 (some UNSET) true) [] 0 = some ['.', '*'] ∧
     toStr Generated.isSpecial (.repeat (.any false) 0 (some UNSET) true) 0 ≠ some ['.', '*'] := by
